@@ -30,6 +30,7 @@ type tvOutcome struct {
 	Kind       string `json:"kind"` // done | crash | copyfail | midstream | metafail | delfail
 	K          int    `json:"k"`
 	RollbackOK bool   `json:"rollback_ok"`
+	RecordFail bool   `json:"record_fail"` // the tier_migrations insert fails too (tolerated by MigrateFile)
 }
 
 type tvOp struct {
@@ -117,7 +118,7 @@ func tvListTier(duck *sql.DB, b *storage.LocalBackend) (map[string][]int64, erro
 			var err error
 			ids, err = tvReadIDs(duck, "FROM read_parquet("+quotePath(b.GetFullPath(n))+")")
 			if err != nil {
-				ids = []int64{-1} // present but unreadable
+				ids = []int64{0} // present but unreadable (row ids start at 1)
 			}
 			if key != "" {
 				tvRowCache[key] = ids
@@ -204,6 +205,8 @@ func tvRunCase(t *testing.T, duck *sql.DB, c tvCase) (res tvCaseObs) {
 				}
 			}
 			tiering.VerifHook.CopyMode = map[string]string{"copyfail": "fail", "midstream": "midstream"}[oc.Kind]
+			tiering.VerifHook.CopyCut = oc.K
+			tiering.VerifHook.RecordFail = oc.RecordFail
 			tiering.VerifHook.MetaFail = oc.Kind == "metafail"
 			tiering.VerifHook.RollbackFail = oc.Kind == "metafail" && !oc.RollbackOK
 			tiering.VerifHook.SourceFail = oc.Kind == "delfail"
@@ -223,6 +226,7 @@ func tvRunCase(t *testing.T, duck *sql.DB, c tvCase) (res tvCaseObs) {
 			}()
 			tiering.VerifHook.Point = nil
 			tiering.VerifHook.CopyMode = ""
+			tiering.VerifHook.RecordFail = false
 			tiering.VerifHook.MetaFail, tiering.VerifHook.RollbackFail, tiering.VerifHook.SourceFail = false, false, false
 			if crashed { // process restart: fresh manager, fresh caches
 				if tm, err = newManager(); err != nil {
